@@ -37,6 +37,11 @@ pub struct ReplayFile {
     /// which build of the simulator recorded it ("default", or "serde_codec": foyer's `serde` feature on)
     #[serde(default)]
     pub build_variant: String,
+    /// the run aborts the process (its streams could not be recorded): replay re-generates it from (seed, index, tier)
+    #[serde(default)]
+    pub from_seed: bool,
+    #[serde(default)]
+    pub thorough: bool,
 }
 
 pub fn build_variant() -> &'static str {
@@ -113,6 +118,16 @@ pub fn plan_for(prop: &str, thorough: bool, seed: u64) -> Plan {
         .and_then(|s| s.parse().ok())
         .unwrap_or_else(|| std::thread::available_parallelism().map(|n| n.get()).unwrap_or(8).min(16));
     Plan { property: prop.to_string(), thorough, seed, runs, budget_s, workers }
+}
+
+/// Tells the supervising parent process which run this worker is executing (read only if this process dies).
+fn note_inflight(slot: usize, idx: u64) {
+    use std::os::unix::fs::FileExt;
+    static FILE: std::sync::OnceLock<Option<std::fs::File>> = std::sync::OnceLock::new();
+    let f = FILE.get_or_init(|| std::env::var("FSIM_INFLIGHT").ok().and_then(|p| std::fs::OpenOptions::new().create(true).write(true).truncate(false).open(p).ok()));
+    if let Some(f) = f {
+        let _ = f.write_all_at(&idx.to_le_bytes(), slot as u64 * 8);
+    }
 }
 
 pub fn gen_case(prop: &str, thorough: bool, run_seed: u64) -> Case {
@@ -371,7 +386,7 @@ pub fn replay_file(path: &str, quiet: bool) -> i32 {
         eprintln!("fsim: cannot parse {path}: {e}");
         std::process::exit(2)
     });
-    let out = run_case(replay_input(&rf.case, &rf.sched, &rf.io));
+    let out = if rf.from_seed { run_case(input_for(&rf.property, rf.thorough, rf.seed, rf.run_index)) } else { run_case(replay_input(&rf.case, &rf.sched, &rf.io)) };
     if let Some(e) = &out.harness_error {
         eprintln!("fsim: harness error during replay: {e}");
         return 2;
@@ -464,8 +479,10 @@ pub fn check_property(plan: &Plan) -> i32 {
         let runs = plan.runs;
         let budget = plan.budget_s;
         let known = known.clone_light();
+        let slot = handles.len();
         handles.push(std::thread::spawn(move || {
             loop {
+                note_inflight(slot, u64::MAX);
                 let idx = next.fetch_add(1, Ordering::SeqCst);
                 if idx >= runs || stop.load(Ordering::SeqCst) || t0.elapsed().as_secs_f64() > budget {
                     break;
@@ -475,6 +492,7 @@ pub fn check_property(plan: &Plan) -> i32 {
                     break;
                 }
                 let input = input_for(&prop, thorough, seed, idx as u64);
+                note_inflight(slot, idx as u64);
                 let keep_sample = idx < 3;
                 let out = run_case(input.clone());
                 if let Some(e) = &out.harness_error {
@@ -632,6 +650,8 @@ pub fn check_property(plan: &Plan) -> i32 {
                     execs
                 ),
                 build_variant: build_variant().to_string(),
+                from_seed: false,
+                thorough: false,
             };
             let path = write_replay(&rf);
             // final confirmation in a fresh process
